@@ -91,6 +91,16 @@ CHECKS = {
                 'object has no path; handle validity = link count > 0; positions/extents/feature-data getters re-check block '
                 'membership. Bit-identity of all other entities and HDF5 link bookkeeping are not decided.',
     },
+    'C20': {
+        'technique': 'static analysis: work-list discipline rule (insertion/removal ends resolved through helpers), guard-fact and '
+                     'linear-form rules for the depth bookkeeping, sibling agreement of the two searches, enumeration/filter rules '
+                     'for the back-reference queries',
+        'text': 'Narrow claim. Decides necessary conditions visible in code shape: FIFO work list (breadth-first), child depth = '
+                'parent depth + 1 enqueued only while parent depth < max_depth, matches appended in removal order, every root '
+                'covered by File::findSections / Block::findSources, back references enumerate all blocks / nested sources with '
+                'MetadataFilter(id()) resp. SourceFilter(id()), inherited properties shadow by name. Equality with a brute-force '
+                'traversal for all trees is not decided.',
+    },
 }
 
 _NYI = 'check not built yet in this session (planned in DESIGN.md); not claimed until its rule runs and is validated'
